@@ -105,6 +105,8 @@ def check_trace(trace, S, M):
         keys.append(tuple(rows))
         if len(set(rows)) != len(rows):
             viols.append(('jumps-duplicate', f'm={m} rows={rows}'))
+        if len({r[:4] for r in rows}) != len(rows):
+            viols.append(('default-jump-reported-more-than-once', f'm={m} rows={rows}'))
         if shellfree and m == 0:
             if sorted(rows) != sorted(D):
                 kind = 'default-jumps-differ'
@@ -126,6 +128,14 @@ def check_trace(trace, S, M):
         prev_rows, prev_m = rows, m
     if impl.event_rows(tr.events) != ev_before or not np.array_equal(np.asarray(tr.states), st_before):
         viols.append(('jump-classifier-modifies-events-or-states', ''))
+    if len(trace[0]) > 1:
+        # the same events listed in chronological order (atoms interleaved) describe the same jumps
+        try:
+            tr2 = impl.make_transitions(trace, S, events=tr.events.sort_values(['time', 'atom index'], kind='stable', ignore_index=True))
+            if sorted(real_jumps(tr2, M[0])) != sorted(real_jumps(tr, M[0])):
+                viols.append(('jumps-depend-on-the-order-of-the-event-rows', f'm={M[0]}'))
+        except Exception as e:  # noqa: BLE001
+            viols.append((f'jumps-reordered-events-raise-{type(e).__name__}', str(e)))
     return viols, tuple(keys)
 
 
